@@ -366,14 +366,22 @@ def cidToGid (bytes : List Nat) (cid : Nat) : Option Nat :=
   | some hi, some lo => some (hi * 256 + lo)
   | _, _ => none
 
-/-- which glyph of the SOURCE font a content-stream code shows to a conforming reader: with subsetting the
-embedded program holds the glyphs `IDs` in order (contract of `sfnt.Subset`) and CID = GID; without, the full
-program is embedded and the CIDToGIDMap stream translates — but only for Type 2 (TrueType) CIDFonts
-(Table 117); for a CIDFontType0 with a name-keyed CFF the CID is the glyph index (§9.7.4.2). -/
+/-- which glyph of the SOURCE font a content-stream code shows to a conforming reader.
+`subset` = a subset program is embedded: it holds the glyphs `IDs` in order (contract of `sfnt.Subset`) and
+CID = GID. Otherwise the full program is embedded and the CIDToGIDMap stream translates — but only for
+Type 2 (TrueType) CIDFonts (Table 117); for a CIDFontType0 with a name-keyed CFF the CID is the glyph index
+(§9.7.4.2). -/
 def codeGlyph (subset trueType : Bool) (ids : List Nat) (code : Nat) : Option Nat :=
   if subset then ids[code]?
   else if trueType then cidToGid (encodeCidMap ids) code
   else some code
+
+/-- `writeFont`: a subset program is embedded iff subsetting was asked for AND `sfnt.Subset` succeeded
+(`subset := w.subset; … else { subset = false }`, /repo 788048f); the CIDToGIDMap stream is written iff not. -/
+def embedsSubset (wanted subsetOK : Bool) : Bool := wanted && subsetOK
+
+def fontCodeGlyph (wanted subsetOK trueType : Bool) (ids : List Nat) (code : Nat) : Option Nat :=
+  codeGlyph (embedsSubset wanted subsetOK) trueType ids code
 
 /-- W array of a font: widths are `int(f*advance+0.5)` of the glyphs in code order -/
 def fontW (upm : Int) (advs : List Int) : Int × List WEnt := encodeW (advs.map (wWidth upm))
